@@ -221,8 +221,10 @@ func c12run(calls []c12call, hist []int, contents bool) (results []string, key s
 func runC12(c *Ctx) {
 	c.Level = "model_checking"
 	thorough := c.Tier == "thorough"
+	fullDepth := 2 // every history of up to this many calls is extended without state de-duplication
 	depth := 3
 	if thorough {
+		fullDepth = 3
 		depth = 5
 		c.SetBudget(30 * time.Minute)
 	} else {
@@ -283,6 +285,10 @@ func runC12(c *Ctx) {
 						states++
 						novel++
 						next = append(next, node{h})
+					} else if d < fullDepth {
+						// short histories are all extended, whatever the state key says: the key is a hand-written dump
+						// of the hidden state and cannot know about a carrier that a change to the library adds
+						next = append(next, node{h})
 					}
 				}
 			}
@@ -321,6 +327,7 @@ func runC12(c *Ctx) {
 		depth int
 	}
 	unis := []uni{{"ALL", allIdx, depth}}
+	_ = fullDepth
 	small := 9
 	if thorough {
 		small = 12
